@@ -31,7 +31,11 @@
      "failconn" a connection attempt that fails while the neighbour is restarting is handled like
                 the expiry of the restart timer
      "lldrop"   the expiry of a long-lived stale timer removes ALL routes of the family, including
-                the ones re-announced in a re-established, not yet synchronised session          *)
+                the ones re-announced in a re-established, not yet synchronised session
+     "llstuck"  the restart bookkeeping (PeerRestarting, long-lived timers "running") is ended neither
+                by a loss that is not graceful nor by the expiry of the last long-lived stale timer;
+                at the next restart-timer expiry nothing happens (the history after either event is
+                not replayed any further)          *)
 EXTENDS Integers, Sequences, FiniteSets, TLC
 
 CONSTANTS Prefixes        \* subset of {"x1","x2","y1","y2"}
@@ -52,7 +56,7 @@ NoCaps == [gr |-> FALSE, fams |-> [f \in Fams |-> FALSE], rt |-> 0, n |-> FALSE,
 HInit == [rts |-> [x \in Prefixes |-> NoRoute], up |-> FALSE, caps |-> NoCaps, sticky |-> NoCaps,
           restarting |-> FALSE, rdl |-> -1, ldl |-> [f \in Fams |-> -1], eor |-> [f \in Fams |-> FALSE],
           second |-> FALSE, taint |-> FALSE, edge |-> FALSE, last |-> "none", over |-> FALSE,
-          llstuck |-> FALSE, doom |-> FALSE]
+          llever |-> FALSE, doom |-> FALSE]
 
 ---------------------------------------------------------------------------
 (* capabilities in force.  [P] "a session with negotiated graceful restart": the local side has GR
@@ -78,7 +82,7 @@ PurgeAll(h) == [h EXCEPT !.rts = [x \in Prefixes |-> NoRoute], !.restarting = FA
                          !.ldl = [f \in Fams |-> -1], !.second = FALSE, !.over = FALSE]
 
 RestartExpire(cfg, h, t0, D) ==
-  IF LlgrNeg(cfg, h, D) /\ ~h.llstuck
+  IF LlgrNeg(cfg, h, D)
   THEN (* [P] "with long-lived GR they are instead kept carrying LLGR_STALE (NO_LLGR routes dropped)"
           [9494 4.2] "The helper router MUST attach the LLGR_STALE community to the stale routes being
           retained" / "routes ... marked with the NO_LLGR community ... MUST NOT be retained" / the timer
@@ -88,11 +92,9 @@ RestartExpire(cfg, h, t0, D) ==
                             LET r == h.rts[x] IN
                               IF r = NoRoute \/ LlTime(cfg, h, D, FamOf(x)) = 0 \/ r.c = 1 THEN NoRoute
                               ELSE [r EXCEPT !.ls = TRUE]],
-                 !.rdl = -1,
+                 !.rdl = -1, !.llever = TRUE,
                  !.ldl = [f \in Fams |-> IF LlTime(cfg, h, D, f) > 0 /\ h.ldl[f] = -1
                                          THEN t0 + 1000 * LlTime(cfg, h, D, f) ELSE h.ldl[f]]]
-  ELSE IF h.llstuck
-  THEN [h EXCEPT !.rdl = -1]     \* deviation "llstuck" (see Loss): nothing happens at this expiry
   ELSE (* [P] "Stale routes disappear exactly when the restart timer expires without re-establishment"
           [4724 4.2] "If the session does not get re-established within the Restart Time that the peer
           advertised previously, the Receiving Speaker MUST delete all the stale routes" *)
@@ -105,10 +107,12 @@ LlgrExpire(h, f, D) ==
   LET rts1 == [x \in Prefixes |->
                  IF FamOf(x) = f /\ h.rts[x] # NoRoute /\ (h.rts[x].stale \/ "lldrop" \in D) THEN NoRoute ELSE h.rts[x]]
       ldl1 == [h.ldl EXCEPT ![f] = -1]
-      done == \A g \in Fams : ldl1[g] = -1
+      done == (\A g \in Fams : ldl1[g] = -1) /\ h.rdl = -1
   IN [h EXCEPT !.rts = rts1, !.ldl = ldl1,
                !.restarting = IF done THEN FALSE ELSE h.restarting,
-               !.llstuck = IF done THEN FALSE ELSE h.llstuck,
+               (* deviation "llstuck": the code never notices that the last long-lived timer has expired; the
+                  neighbour keeps counting as restarting with long-lived timers "running": not replayed further *)
+               !.doom = h.doom \/ (done /\ "llstuck" \in D),
                !.second = IF done THEN FALSE ELSE h.second,
                !.over = IF done THEN FALSE ELSE h.over]
 
@@ -123,8 +127,7 @@ Adv(cfg, h, t, D) ==
 AdvIn(cfg, h, t, D) == LET a == Adv(cfg, h, t, D) IN [a EXCEPT !.taint = a.taint \/ a.edge, !.edge = FALSE]
 
 PurgeStale(h) == [h EXCEPT !.rts = [x \in Prefixes |-> IF h.rts[x] # NoRoute /\ h.rts[x].stale THEN NoRoute ELSE h.rts[x]],
-                           !.restarting = FALSE, !.ldl = [f \in Fams |-> -1], !.second = FALSE, !.over = FALSE,
-                           !.llstuck = FALSE]
+                           !.restarting = FALSE, !.ldl = [f \in Fams |-> -1], !.second = FALSE, !.over = FALSE]
 
 ---------------------------------------------------------------------------
 (* inputs concerning R *)
@@ -175,15 +178,16 @@ HLoss(cfg, h, t, D, kind) ==
                retained routes keep counting against the limit, the aborted UPDATE leaves the tables
                inconsistent): doom *)
             !.over = a.over \/ (kind = "pfxlimit"), !.doom = a.doom \/ (kind = "pfxlimit"),
-            !.taint = a.taint \/ Unsettled(cfg, a, D, kind)]
+            (* a second loss while long-lived stale timers of the first restart are still running: how the
+               new restart timer and the running timers ([9494 4.2] "MUST NOT be updated") combine is not
+               settled by [P]: not judged *)
+            !.taint = a.taint \/ Unsettled(cfg, a, D, kind) \/ (a.restarting /\ \E f \in Fams : a.ldl[f] >= 0)]
      ELSE [PurgeAll(a) EXCEPT
             !.up = FALSE, !.taint = a.taint \/ Unsettled(cfg, a, D, kind),
             !.last = IF kind = "pfxlimit" THEN "nonq_pfx" ELSE IF ~(cfg.gr /\ a.caps.gr) THEN "nonq_nogr" ELSE "nonq",
-            (* deviation "llstuck" (only replayed with "stuck"): long-lived timers of an abandoned restart
-               keep running and block the handling of the next restart-timer expiry *)
-            !.ldl = IF "stuck" \in D THEN a.ldl ELSE [f \in Fams |-> -1],
-            !.llstuck = ("stuck" \in D) /\ (a.llstuck \/ \E f \in Fams : a.ldl[f] >= 0),
-            !.restarting = ("stuck" \in D) /\ a.restarting]
+            (* deviation "llstuck": the restart bookkeeping of an unfinished restart is not ended - the neighbour
+               keeps counting as restarting, long-lived timers keep running: not replayed further *)
+            !.doom = a.doom \/ ("llstuck" \in D /\ a.restarting)]
 
 (* the session is (re-)established; c = capabilities of R's OPEN *)
 HUp(cfg, h, t, D, c) ==
